@@ -2,6 +2,37 @@
 // their standard counterparts: flat_map, PODResizeableArray, LazyArray /
 // LazyObject, optional, the PriorityQueue.h family, TwoLevelIterator(A),
 // LargeArray, CopyableTuple.  In-process rapidcheck; DESIGN.md 4/C14.
+//
+// Case = (fn, variant, init, n, p, seed) + tail.  fn selects the container,
+// variant the element type / comparator / container shape, init the way the
+// container is first built (default, range constructor, comparator-taking
+// range constructor; allocation policy for LargeArray), n the number of
+// initial elements (taken from the head of the tail), p a comparator
+// direction / thread count.  The rest of the tail is a sequence of operations,
+// three values each (opcode, a, b), decoded modulo the valid ranges.
+//
+// Oracle: std::map / std::vector(+defined flags) / std::optional /
+// std::multiset / std::set / flattened std::vector, compared after every
+// operation (return values, size/empty/front/back/top, bounded forward and
+// backward traversal).  Element type Tracked registers every constructed
+// address; reads/assignments/destructions of unregistered addresses,
+// construction over a live element and left-over registrations are failures,
+// and the number of live elements must equal the model size after every op.
+// PODResizeableArray's realloc/free/memcpy are routed through checking
+// wrappers (see below); MinHeap gets a container whose front() on an empty
+// vector is recorded instead of undefined.
+//
+// Non-triviality: flat_map / heaps / ordered set: the container held >= 3
+// elements at some point and the sequence contained >= 1 removal; POD array:
+// >= 2 operations reallocated the storage and >= 1 removal (shrinking resize,
+// clear, assign of a shorter range); LazyArray/LazyObject: >= 2 constructions
+// and >= 1 destruction; optional: was set and reset; two-level iterators: >= 2
+// non-empty and >= 1 empty inner range and >= 1 position operation;
+// LargeArray: >= 2 elements and a destroy/re-construct or explicit tear-down;
+// tuples: >= 2 value triples.
+//
+// Known-finding keys (VERIF_EXCLUDE): the decoder refuses exactly the
+// operation shape of an excluded key and counts it (K_* constants below).
 #include "verif_e1.h"
 
 #include <algorithm>
@@ -36,12 +67,15 @@
 namespace verif {
 void* pod_realloc(void* p, size_t n);
 void* pod_memcpy(void* d, const void* s, size_t n);
+void pod_free(void* p);
 } // namespace verif
 #define realloc(p, n) ::verif::pod_realloc((p), (n))
+#define free(p) ::verif::pod_free((p))
 #define memcpy(d, s, n) ::verif::pod_memcpy((d), (s), (n))
 #include "galois/PODResizeableArray.h"
 #undef realloc
 #undef memcpy
+#undef free
 
 #include "galois/Galois.h"
 #include "galois/FlatMap.h"
@@ -56,7 +90,7 @@ void* pod_memcpy(void* d, const void* s, size_t n);
 #include "galois/CopyableTuple.h"
 
 // a sanitizer report must reach the driver's crash handler (SIGABRT)
-extern "C" const char* __asan_default_options() { return "abort_on_error=1:detect_leaks=0"; }
+extern "C" const char* __asan_default_options() { return "abort_on_error=1"; }
 extern "C" const char* __ubsan_default_options() { return "abort_on_error=1:print_stacktrace=1"; }
 
 using namespace verif;
@@ -105,8 +139,10 @@ struct Tail {
 struct PodHooks {
   std::unordered_map<void*, size_t> sizes;
   std::vector<void*> graveyard;
-  long reallocs = 0, null_memcpy = 0;
+  long reallocs = 0, null_memcpy = 0, bad_free = 0;
+  ~PodHooks() { reset(); }
   void reset() {
+    bad_free = 0;
     for (void* p : graveyard)
       free(p);
     graveyard.clear();
@@ -132,6 +168,17 @@ void* pod_realloc(void* p, size_t n) {
   }
   g_pod.sizes[q] = n;
   return q;
+}
+void pod_free(void* p) {
+  if (!p)
+    return;
+  auto it = g_pod.sizes.find(p);
+  if (it == g_pod.sizes.end()) { // not a live block of the array: double free or foreign pointer
+    ++g_pod.bad_free;
+    return;
+  }
+  g_pod.sizes.erase(it);
+  free(p);
 }
 void* pod_memcpy(void* d, const void* s, size_t n) {
   if (!d || !s)
@@ -620,6 +667,7 @@ struct PodRun {
 
   void check(PA& a, const Model& m, const char* what) {
     VCHECK(g_pod.null_memcpy == 0, "assign-null-memcpy", "memcpy was called with a null pointer argument; after %s", what);
+    VCHECK(g_pod.bad_free == 0, "storage-free", "free() was called on a block that is not live storage of an array (double free?); after %s", what);
     VCHECK(a.size() == m.size(), "size", "size() = %zu, model %zu; after %s", a.size(), m.size(), what);
     VCHECK(a.empty() == m.empty(), "empty", "empty() = %d, model size %zu; after %s", (int)a.empty(), m.size(), what);
     VCHECK(a.max_size() >= a.size(), "capacity", "max_size() (capacity) = %zu < size() = %zu; after %s", a.max_size(), a.size(), what);
@@ -1543,6 +1591,9 @@ struct TLRun {
       size_t k = 0;
       while (!(it == e)) {
         VCHECK(k < n, "forward", "forward traversal does not reach end after the %zu elements of the flattened sequence", n);
+        long loc = locate(it);
+        if (loc != -2)
+          VCHECK(loc == (long)k, "forward", "forward traversal: after %zu increments the iterator is at flat position %ld (-1 = not a valid position)", k, loc);
         VCHECK(*it == flat[k], "forward", "forward traversal element %zu is %d, flattened sequence has %d", k, *it, flat[k]);
         if (k & 1)
           ++it;
@@ -1667,6 +1718,37 @@ struct TLRun {
   }
 };
 
+// position of a TwoLevelIterator.h iterator from its (protected) state, without dereferencing it
+template <class It>
+struct TLPeek : It {
+  static long locate(const It& it, size_t n) {
+    auto ob = it.*(&TLPeek::m_beg_outer), oe = it.*(&TLPeek::m_end_outer), o = it.*(&TLPeek::m_outer);
+    auto in = it.*(&TLPeek::m_inner);
+    auto bf = it.*(&TLPeek::innerBegFn);
+    auto ef = it.*(&TLPeek::innerEndFn);
+    size_t base = 0;
+    for (auto x = ob; x != oe; ++x) {
+      auto ib = bf(*x), ie = ef(*x);
+      if (x == o) {
+        size_t off = 0;
+        for (auto y = ib; y != ie; ++y, ++off)
+          if (y == in)
+            return (long)(base + off);
+        return -1;
+      }
+      base += (size_t)std::distance(ib, ie);
+    }
+    return o == oe ? (long)n : -1;
+  }
+};
+struct TLLocate {
+  size_t n;
+  template <class It>
+  long operator()(const It& it) const {
+    return TLPeek<It>::locate(it, n);
+  }
+};
+
 struct VBeg {
   typedef std::vector<int>::iterator result_type;
   result_type operator()(std::vector<int>& v) const { return v.begin(); }
@@ -1685,13 +1767,13 @@ static void run_tl(const Case& c, TLRun& r, TLShape& s) {
   case 0: {
     VV d;
     tl_fill(d, s);
-    r.check("TL", galois::stl_two_level_begin(d.begin(), d.end()), galois::stl_two_level_end(d.begin(), d.end()), s, t, oe, NoLocate(), false, true);
+    r.check("TL", galois::stl_two_level_begin(d.begin(), d.end()), galois::stl_two_level_end(d.begin(), d.end()), s, t, oe, TLLocate{s.flat.size()}, false, true);
     break;
   }
   case 1: {
     VV d;
     tl_fill(d, s);
-    r.check("TL", galois::stl_two_level_cbegin(d.cbegin(), d.cend()), galois::stl_two_level_cend(d.cbegin(), d.cend()), s, t, oe, NoLocate(), false, true);
+    r.check("TL", galois::stl_two_level_cbegin(d.cbegin(), d.cend()), galois::stl_two_level_cend(d.cbegin(), d.cend()), s, t, oe, TLLocate{s.flat.size()}, false, true);
     break;
   }
   case 2: { // reverse inner iterators over the reversed outer sequence: the flattened sequence backwards
@@ -1705,32 +1787,32 @@ static void run_tl(const Case& c, TLRun& r, TLShape& s) {
         rs.outer_of.push_back(i);
         rs.off_of.push_back(j);
       }
-    r.check("TL", galois::stl_two_level_rbegin(d.rbegin(), d.rend()), galois::stl_two_level_rend(d.rbegin(), d.rend()), rs, t, oe, NoLocate(), false, true);
+    r.check("TL", galois::stl_two_level_rbegin(d.rbegin(), d.rend()), galois::stl_two_level_rend(d.rbegin(), d.rend()), rs, t, oe, TLLocate{s.flat.size()}, false, true);
     break;
   }
   case 3: {
     VV d;
     tl_fill(d, s);
-    r.check("TL", galois::make_two_level_begin(d.begin(), d.end(), VBeg(), VEnd()), galois::make_two_level_end(d.begin(), d.end(), VBeg(), VEnd()), s, t, oe, NoLocate(), false,
+    r.check("TL", galois::make_two_level_begin(d.begin(), d.end(), VBeg(), VEnd()), galois::make_two_level_end(d.begin(), d.end(), VBeg(), VEnd()), s, t, oe, TLLocate{s.flat.size()}, false,
             true);
     break;
   }
   case 4: {
     std::list<std::list<int>> d;
     tl_fill(d, s);
-    r.check("TL", galois::stl_two_level_begin(d.begin(), d.end()), galois::stl_two_level_end(d.begin(), d.end()), s, t, oe, NoLocate(), false, false);
+    r.check("TL", galois::stl_two_level_begin(d.begin(), d.end()), galois::stl_two_level_end(d.begin(), d.end()), s, t, oe, TLLocate{s.flat.size()}, false, false);
     break;
   }
   case 5: {
     std::vector<std::forward_list<int>> d;
     tl_fill(d, s);
-    r.check("TL", galois::stl_two_level_begin(d.begin(), d.end()), galois::stl_two_level_end(d.begin(), d.end()), s, t, oe, NoLocate(), false, false);
+    r.check("TL", galois::stl_two_level_begin(d.begin(), d.end()), galois::stl_two_level_end(d.begin(), d.end()), s, t, oe, TLLocate{s.flat.size()}, false, false);
     break;
   }
   default: {
     std::forward_list<std::list<int>> d;
     tl_fill(d, s);
-    r.check("TL", galois::stl_two_level_begin(d.begin(), d.end()), galois::stl_two_level_end(d.begin(), d.end()), s, t, oe, NoLocate(), false, false);
+    r.check("TL", galois::stl_two_level_begin(d.begin(), d.end()), galois::stl_two_level_end(d.begin(), d.end()), s, t, oe, TLLocate{s.flat.size()}, false, false);
   }
   }
 }
@@ -1844,13 +1926,13 @@ struct LargeRun {
     size_t n       = (size_t)c[F_N];
     unsigned thr   = galois::setActiveThreads(1 + (unsigned)(c[F_P] % 4));
     uint64_t seed  = (uint64_t)c[F_SEED];
-    void* wrapbuf  = nullptr;
+    std::unique_ptr<void, void (*)(void*)> wrapbuf(nullptr, ::free); // outlives the array that wraps it
     std::vector<int> m;
     {
       std::unique_ptr<LA> lp;
       if (kind == 6) {
-        wrapbuf = malloc(n * sizeof(T) + 1);
-        lp.reset(new LA(wrapbuf, n));
+        wrapbuf.reset(malloc(n * sizeof(T) + 1));
+        lp.reset(new LA(wrapbuf.get(), n));
       } else
         lp.reset(new LA());
       LA& la = *lp;
@@ -1907,6 +1989,7 @@ struct LargeRun {
       check(la, m, "allocation + construction");
       track_live(tracked_count<T>() * n, "allocation + construction");
       LA other;
+      bool other_fresh = true; // allocate() requires an array that holds no storage
       std::vector<int> mo;
       int nops = 0;
       char what[96];
@@ -1958,10 +2041,12 @@ struct LargeRun {
         case 5:
           swap(la, other);
           m.swap(mo);
+          other_fresh = false;
           break;
         default: // (re)build the second array
-          if (mo.empty() && other.size() == 0) {
-            size_t k = a % 20;
+          if (other_fresh) {
+            other_fresh = false;
+            size_t k    = a % 20;
             other.allocateFloating(k);
             for (size_t x = 0; x < k; ++x) {
               other.constructAt(x, mk<T>(v + (int)x));
@@ -1994,8 +2079,7 @@ struct LargeRun {
         ++st.removals;
       }
     } // destructors destroy every element and release the storage
-    if (wrapbuf)
-      free(wrapbuf);
+    wrapbuf.reset();
     track_live(0, "destruction of the arrays");
     st.maxsize = n;
     label("alloc", ALLOC_NAMES[kind]);
@@ -2067,12 +2151,15 @@ static void run_tuple(const Case& c, Stats& st) {
 }
 
 // ================================================================= generator
-static void gen_ops(Case& c, int fn, std::initializer_list<std::pair<size_t, int>> weights, int64_t arange, int64_t brange) {
+static void gen_ops(Case& c, rc::Gen<int> opgen, int64_t arange, int64_t brange);
+static void gen_ops(Case& c, int, std::initializer_list<std::pair<size_t, int>> weights, int64_t arange, int64_t brange) {
+  gen_ops(c, rc::gen::weightedElement<int>(weights), arange, brange);
+}
+static void gen_ops(Case& c, rc::Gen<int> opgen, int64_t arange, int64_t brange) {
   using namespace rc;
-  (void)fn;
   // a container generator: rapidcheck removes operations anywhere in the sequence when shrinking
   typedef std::tuple<int, int64_t, int64_t> Op;
-  auto ops = *gen::scale(3.0, gen::container<std::vector<Op>>(gen::tuple(gen::weightedElement<int>(weights), gen::inRange<int64_t>(0, arange), gen::inRange<int64_t>(0, brange))));
+  auto ops = *gen::scale(3.0, gen::container<std::vector<Op>>(gen::tuple(opgen, gen::inRange<int64_t>(0, arange), gen::inRange<int64_t>(0, brange))));
   if (ops.size() > (size_t)MAXOPS)
     ops.resize(MAXOPS);
   for (auto& o : ops) {
@@ -2134,12 +2221,7 @@ Case generate() {
     c[F_N] = *gen::inRange<int64_t>(0, 10);
     for (int i = 0; i < c[F_N]; ++i)
       c.f.push_back(*gen::weightedElement<int64_t>({{4, 0}, {2, 1}, {2, 2}, {2, 3}, {1, 4}, {1, 5}}));
-    int n = *gen::inRange(0, 40);
-    for (int i = 0; i < n; ++i) {
-      c.f.push_back(*gen::inRange<int64_t>(0, 51));
-      c.f.push_back(*gen::inRange<int64_t>(0, 51));
-      c.f.push_back(*gen::inRange<int64_t>(0, 2));
-    }
+    gen_ops(c, gen::inRange<int>(0, 51), 51, 2); // (position i, position j, mode), positions modulo n+1
     break;
   }
   case FN_LARGE:
@@ -2240,6 +2322,8 @@ void run(const Case& c0) {
       r.run(c);
       st = r.st, reallocs = r.grow_reallocs, alias = r.alias_growth;
     }
+    VCHECK(g_pod.bad_free == 0, "storage-free", "free() was called on a block that is not live storage of an array (double free?)");
+    VCHECK(g_pod.sizes.empty(), "storage-leak", "%zu storage blocks obtained from realloc were never freed after all arrays were destroyed", g_pod.sizes.size());
     label("alias_realloc", alias);
     label("reallocs", reallocs == 0 ? "0" : reallocs < 3 ? "1-2" : ">=3");
     nt = reallocs >= 2 && st.removals >= 1;
